@@ -222,7 +222,7 @@ class SimSocket(Conn):
                 self.world.stats["vtime_ns"] += int(wait * 1e9)
                 continue
             if item[0] == "clockjump":
-                self.world.clock.advance_ns(int(item[1] * 1e9))
+                self.world.clock.step_ns(int(item[1] * 1e9))
                 self.world.log("clock.jump", self.cid, item[1])
                 continue
             if item[0] == "data":
@@ -350,7 +350,7 @@ class SimSocket(Conn):
                     timeout -= wait
                 continue
             if kind == "clockjump":
-                self.world.clock.advance_ns(int(self._rx.pop(0)[1] * 1e9))
+                self.world.clock.step_ns(int(self._rx.pop(0)[1] * 1e9))
                 continue
             if kind == "stall":
                 self._rx.pop(0)
